@@ -612,6 +612,11 @@ pub fn run(args: &[String]) -> i32 {
         );
         merge(&mut rep, "trigger_pairs", accs, &stats, json!({"triggers": "all ordered pairs", "positions": &POSITIONS[..5], "nesting": ["none", "one constructor"], "languages": 6}));
     }
+    let amb_k = if rep.thorough() { 3 } else { 2 };
+    super::common::ambient_family(&mut rep, "ambient_variations", amb_k + 1, |ch| { gen_single(ch, 2); }, |ch, acc| {
+        let c = gen_single(ch, 2);
+        check_case(&c, &ch.choices(), acc);
+    });
     multi_file_family(&mut rep);
     require_nonvacuous(&mut rep);
     rep.cov("rule", json!("full product of trigger type × position × nesting chain (all chains up to the stated depth over 6 constructors) × field attributes × language, and all ordered trigger pairs; in each output the helper names in use (token scan outside comments/strings, per-language vocabulary) must be defined or imported in the same output. non-trivial = at least one helper name is in use."));
